@@ -1094,4 +1094,20 @@ pub struct MPMCFutSender<T> {""")]),
     }""", """    } else {
         ::std::cmp::max(val, 1).next_power_of_two()
     }""")], kind='refactor'),
+
+    V('mask-is-wrap', 'C03', ['P15m'], [E('src/countedindex.rs', """            val: AtomicUsize::new(val),
+            mask: (wrap - 1) as usize,""", """            val: AtomicUsize::new(val),
+            mask: (wrap | 1) as usize - 1 + (wrap as usize & 0),""")]),
+    V('get-previous-plus', 'C03', ['P15m'], [E('src/countedindex.rs', "start.wrapping_sub(by as usize)", "start.wrapping_sub(by as usize).wrapping_add(1)")]),
+    V('commit-no-rm-tag', 'C01', ['P15m'], [E('src/countedindex.rs', """        let store_val = rm_tag(self.loaded_vals.wrapping_add(by as usize));
+        self.ptr.store(store_val, ord);""", """        let store_val = self.loaded_vals.wrapping_add(by as usize);
+        self.ptr.store(store_val, ord);""")]),
+    V('reload-tail-from-cache', 'C03', ['P15m', 'P1b'], [E(MQ, """        let current_tail = CountedIndex::get_previous(count, max_diff_from_head);
+        self.tail_cache.store(current_tail, Relaxed);
+        current_tail""", """        let current_tail = CountedIndex::get_previous(self.tail_cache.load(Relaxed).wrapping_add(self.capacity as usize), max_diff_from_head);
+        self.tail_cache.store(current_tail, Relaxed);
+        current_tail""")]),
+    V('rf-mask-written-differently', None, [], [E('src/countedindex.rs', """            val: AtomicUsize::new(val),
+            mask: (wrap - 1) as usize,""", """            val: AtomicUsize::new(val),
+            mask: wrap as usize - 1,""")], kind='refactor'),
 ]
